@@ -198,6 +198,19 @@ def run(ctx):
             if 'assign' in s_ and s_['rv']['k'] == 'agg' and s_['rv'].get('adt') == 'core::option::Option' and s_['rv']['variant'] == 'None' and not rk.is_cleanup(bb):
                 nones.append(bb)
     okn = bool(nones)
+    if not nones:
+        # the combinator spelling: `first().map(|field| seed.deserialize(..)).transpose()` - None comes out of the library
+        # exactly when first() found nothing; nothing else may decide it (no switch in the body besides cleanup)
+        ro = origin(rk, {'move': {'l': 0}})
+        chain = []
+        tr_ = [c for c in ro.calls if strip_generics(cname(c)).endswith('Option::transpose')]
+        if len(tr_) == 1 and len(ro.calls) == 1:
+            chain.append('Option::transpose')
+            ro = origin(rk, tr_[0]['args'][0])      # (origin looks through Option::map to what is mapped)
+            if any(strip_generics(cname(c)).endswith('Option::map') for c in ro.calls):
+                chain.append('Option::map')
+        okn = chain == ['Option::transpose', 'Option::map'] and 'record_fields' in ro.fields and 'get' in ro.flags and \
+            not [bb for bb in rk.live_blocks() if rk.term(bb)['k'] == 'switch' and not rk.is_cleanup(bb)]
     for nb_ in nones:
         good = False
         for names, adt, oo, d_, oth in option_guards(rk, nb_):
